@@ -810,6 +810,10 @@ class Schema:
             dunder: List[str] = []
             for st in ci.node.body:
                 if isinstance(st, ast.AnnAssign) and isinstance(st.target, ast.Name):
+                    head = st.annotation.value if isinstance(st.annotation, ast.Subscript) else st.annotation
+                    hq = self.repo.resolve_expr(ci.module, head) if isinstance(head, (ast.Name, ast.Attribute)) else None
+                    if hq == "typing.ClassVar" or (isinstance(st.annotation, ast.Constant) and str(st.annotation.value).startswith(("ClassVar", "typing.ClassVar"))):
+                        continue  # a class variable is not a dataclass field
                     own.append(self._field(st))
                 elif isinstance(st, ast.FunctionDef):
                     decos = [ast.unparse(d) for d in st.decorator_list]
